@@ -28,7 +28,8 @@ CONSTANTS
   AllowCorrupt,   \* enable the Corrupt_* actions
   AllowRuns,      \* enable EmitRun (long output for distance 32768)
   Sim,            \* TRUE: draw each parameter with RandomElement (for -simulate) instead of enumerating
-  DynOpts         \* allowed <<big HLIT, big HDIST, run-length coded lengths, code-length code>> tuples
+  DynOpts,        \* allowed <<big HLIT, big HDIST, run-length coded lengths, code-length code>> tuples
+  DynOnly         \* TRUE: only dynamic-Huffman blocks (biased simulation configs)
 
 VARIABLES
   ph,       \* "start" "block" "tokens" "done"
@@ -248,7 +249,7 @@ AfterBlock(final) == IF final THEN "finish" ELSE "block"
 
 \* stored block of n bytes, at whatever bit alignment the stream has reached
 BeginStored(final, data) ==
-  /\ CanStartBlock
+  /\ CanStartBlock /\ ~DynOnly
   /\ LET b1 == bits \o HdrBits(final, 0)
          b2 == b1 \o Zeros(PadLen(Len(b1)))
          n == Len(data)
@@ -259,7 +260,7 @@ BeginStored(final, data) ==
   /\ UNCHANGED <<zl, ll, dl, lcw, dcw, pdl, pdcw, ntok, expect, why>>
 
 BeginFixed(final) ==
-  /\ CanStartBlock
+  /\ CanStartBlock /\ ~DynOnly
   /\ bits' = bits \o HdrBits(final, 1)
   /\ ll' = FixedLitLens /\ dl' = FixedDistLens32 /\ lcw' = FixedLitCW /\ dcw' = FixedDistCW
   /\ pdl' = dl /\ pdcw' = dcw
